@@ -1324,6 +1324,16 @@ fn run_c14(ctx: &mut Ctx) -> Result<RunOut, Violation> {
         plan2.specs = Some(vec![spec]);
         plan2.has_if_range = true;
     }
+    // A conditional request may also be a range request (without If-Range): the validators are
+    // evaluated first and the answers demanded below stay the same.
+    let mut plain_range = false;
+    if !ir && meta.len > 0 && t.chance(1, 3) {
+        let n = 1 + t.draw(3) as usize;
+        let specs: Vec<_> = (0..n).map(|_| gen_spec(t, meta.len, true)).collect();
+        plan2.headers.push(("range".into(), render_specs(t, &specs)));
+        plan2.specs = Some(specs);
+        plain_range = true;
+    }
     let cfg2 = quiet_cfg(t);
     let ex2 = exchange(ctx, &meta, t2, &plan2, &cfg2);
     if ex2.any_panic().is_some() {
@@ -1366,11 +1376,12 @@ fn run_c14(ctx: &mut Ctx) -> Result<RunOut, Violation> {
     if im { st.bump("c14_echo_if_match"); }
     if ius { st.bump("c14_echo_if_unmodified_since"); }
     if ir { st.bump("c14_echo_if_range"); }
+    if plain_range { st.bump("c14_echo_with_plain_range_header"); }
     if meta.mtime_ns.map(|m| m % NS != 0).unwrap_or(false) { st.bump("c14_subsecond_mtime"); }
     let mut sig = mix(0xC14, ex1.status as u64);
     sig = mix(sig, ex2.status as u64);
     sig = mix(sig, (inm as u64) | (ims as u64) << 1 | (im as u64) << 2 | (ius as u64) << 3 | (ir as u64) << 4);
-    sig = mix(sig, jump as u64);
+    sig = mix(sig, jump as u64 | (plain_range as u64) << 8);
     sig = mix(sig, meta.etag.as_ref().map(|e| 1 + e.starts_with(b"W/") as u64).unwrap_or(0));
     sig = mix(sig, meta.mtime_ns.map(|m| 1 + (m % NS != 0) as u64 + 2 * (m > t1) as u64).unwrap_or(0));
     if ctx.wants_sample() {
